@@ -190,6 +190,7 @@ func (s *SolverStats) add(o SolverStats) {
 	}
 	s.Restarts += o.Restarts
 	s.Fallbacks += o.Fallbacks
+	s.Errors += o.Errors
 }
 
 type report struct {
